@@ -43,8 +43,13 @@ def incremental(mode, strategy, d, n, m, grid=8):
 
 def batch(entry, d, n, m, grid=8):
     rows, ys, _, _ = instance(d, m)
-    sc = GB.BatchScenario(cls="batch", mode=entry, d=d, n_inner=n, tables="spec",
-                          rows=[([F(v) for v in r], y) for r, y in zip(rows, ys)])
+    if entry == "interval":
+        # IntervalSage whose m-th call recomputes over a window holding exactly the m rows
+        sc = GB.BatchScenario(cls="interval", mode="interval", d=d, n_inner=n, tables="spec", interval=m, storage_len=m,
+                              rows=[([F(v) for v in r], y) for r, y in zip(rows, ys)], calls=[(False, True)] * m)
+    else:
+        sc = GB.BatchScenario(cls="batch", mode=entry, d=d, n_inner=n, tables="spec",
+                              rows=[([F(v) for v in r], y) for r, y in zip(rows, ys)])
     res = []
     stack = [([], F(1))]
     runs = 0
@@ -61,7 +66,7 @@ def batch(entry, d, n, m, grid=8):
             for v, pw in dist.outcomes_of(e.kind, e.range, grid, getattr(e, "weights", None)):
                 stack.append((script + [(e.kind, e.range, v)], w * pw))
             continue
-        c = tr["calls"][0]
+        c = tr["calls"][-1]
         if c["outcome"] != "ret":
             raise RuntimeError("explain raised: %s" % c["exc"])
         vals = c["raw_values"]
